@@ -55,7 +55,7 @@ theorem psort_spec (lt : Cmp) (hs : SWO lt) (leafSort : Array Nat → Array Nat)
       · rename_i hdiv
         have hn : 0 < a.size := by
           simp [isDivisible, Generated.C06.sortGrainsize] at hdiv; omega
-        obtain ⟨a', j, e1, e2, e3, e4, e5, e6⟩ := splitRange_spec lt hs a hn
+        obtain ⟨a', j, e1, e2, e3, e4, e5, e6⟩ := splitRange_spec lt hs.toAsym a hn
         rw [e1]
         simp only
         obtain ⟨l, l1, l2, l3⟩ := ihl (a'.extract 0 j)
